@@ -7,9 +7,11 @@ Ops
 ```
 clock <ms>                                        set the virtual clock
 tick <ms>                                         advance the virtual clock
+onsleep <n> <rule>*n                              arm: while the next queued request sleeps, another goroutine loads these rules
+                                                  (the entry during which it happens reports ` reload:<rules in force>`)
 load <n> <rule>*n                                 hotspot.LoadRules on a cleared module  => number of rules in force
       rule = res=<name>,cb=<0|1|k>,idx=<int>,key=<name|->,T=<int>,burst=<int>,D=<int>,mq=<int>,cap=<int>,items=<-|val@int;val@int…>
-entry <res> <batch> <nargs> <val>*nargs <natt> <key=val>*natt
+entry <res> <batch> <nargs> <val|+>*nargs <natt> <key=val>*natt     (`+` starts another WithArgs option)
 sweep <res> <batch> <prefix> <lo> <hi>            one entry per k in [lo,hi) with the single argument <prefix>k (e.g. v:i:)
       => run-length encoded results `<n>x<result>;…` (spaces as `_`)
       => pass | block <rule#> | spin, optionally followed by ` w:<ns>,<ns>…` (sleeps asked of the clock, in order)
@@ -36,6 +38,7 @@ def parseItems (s : String) : Option (List (Val × Int)) :=
     | _ => none
 
 def parseRule (s : String) : Option Rule :=
+  if s = "-" then some {} else     -- a nil *Rule: skipped by LoadRules (here: invalid, empty resource), its position counts
   (s.splitOn ",").foldlM (fun (r : Rule) kv =>
     let (k, v) := splitFirst kv "="
     match k with
@@ -65,12 +68,12 @@ def parseEntry (ts : List String) : Option Entry :=
   | "entry" :: res :: b :: na :: rest =>
     match b.toNat?, na.toNat? with
     | some b, some na =>
-      let args := rest.take na
+      let args := (rest.take na).filter (· ≠ "+")     -- `+` starts another WithArgs option: the options' arguments are appended
       match rest.drop na with
       | nt :: rest2 =>
         match nt.toNat? with
         | some nt =>
-          if args.length = na ∧ rest2.length = nt then
+          if (rest.take na).length = na ∧ rest2.length = nt then
             some { res := res, b := b, args := args, atts := rest2.map fun kv => splitFirst kv "=" }
           else none
         | none => none
@@ -87,13 +90,16 @@ structure St where
   ctls : List Ctl := []
   nowNs : Int := 0
   gen : Nat := 0              -- number of loads so far; a controller created by load `g` at position `i` is rule# g*1000+i
+  armed : Option (List Rule) := none   -- `onsleep`: the reload another goroutine performs while the next queued request sleeps
 
 def entryModel (s : St) (e : Entry) : St × String :=
-  let (cs, now, o) := slotCheck e.res e.args e.atts e.b s.ctls s.nowNs []
+  let (cs, now, o, fired) := entryArmed (s.gen * 1000) s.armed e.res e.args e.atts e.b s.ctls s.nowNs
   let r := if o.spin then "spin" else match o.blocked with
     | some g => s!"block {g}"
     | none => "pass"
-  ({ s with ctls := cs, nowNs := now }, r ++ showSleeps o.sleeps)
+  if fired then
+    ({ s with ctls := cs, nowNs := now, gen := s.gen + 1, armed := none }, r ++ showSleeps o.sleeps ++ s!" reload:{cs.length}")
+  else ({ s with ctls := cs, nowNs := now }, r ++ showSleeps o.sleeps)
 
 /-- run-length encoding of a list of results: `<n>x<result with '_' for ' '>` joined by `;` -/
 def rle (rs : List String) : String :=
@@ -124,6 +130,9 @@ def stepModel (s : St) (ts : List String) (_ : String) : St × Option String :=
         if rs.length ≠ n then (s, some "bad-op") else
         let cs := reload (s.gen * 1000) s.ctls rs
         ({ s with ctls := cs, gen := s.gen + 1 }, some (toString cs.length))
+      | _, _ => (s, some "bad-op")
+  | "onsleep" :: n :: rules => match n.toNat?, rules.mapM parseRule with
+      | some n, some rs => if rs.length ≠ n then (s, some "bad-op") else ({ s with armed := some rs }, none)
       | _, _ => (s, some "bad-op")
   | "entry" :: _ => match parseEntry ts with
       | none => (s, some "bad-op")
@@ -162,6 +171,7 @@ structure ORule where
 structure OSt where
   rules : List ORule := []
   gen : Nat := 0
+  armed : Option (List Rule) := none
   nowNs : Int := 0
   t0 : Option Int := none
   mono : Bool := true
@@ -276,16 +286,22 @@ def judgeOne (o : ORule) (v : Val) (t b : Int) (adm : Option Int) (t0 : Int) : O
       lastSched := match adm with | some wt => t + wt | none => rec1.lastSched }
     (putRec o1 v rec2, vInd.join vLit)
 
-def parseResult (r : String) : Option (Option Nat × List Int) :=
+def parseResult (r : String) : Option (Option Nat × List Int × Option Nat) :=
   let ts := toks r
-  let sleeps (rest : List String) : Option (List Int) := match rest with
-    | [] => some []
-    | [wl] => if wl.startsWith "w:" then ((wl.drop 2).toString.splitOn ",").mapM (·.toInt?) else none
-    | _ => none
+  -- optional ` w:<ns,…>` then optional ` reload:<rules in force>`
+  let tail (rest : List String) : Option (List Int × Option Nat) :=
+    let (ws, rest) : Option (List Int) × List String := match rest with
+      | wl :: more =>
+        if wl.startsWith "w:" then (((wl.drop 2).toString.splitOn ",").mapM String.toInt?, more) else (some [], rest)
+      | [] => (some [], [])
+    match ws, rest with
+    | some sl, [] => some (sl, none)
+    | some sl, [rl] => if rl.startsWith "reload:" then ((rl.drop 7).toString.toNat?).map fun n => (sl, some n) else none
+    | _, _ => none
   match ts with
-  | "pass" :: rest => (sleeps rest).map fun sl => (none, sl)
+  | "pass" :: rest => (tail rest).map fun (sl, rl) => (none, sl, rl)
   | "block" :: g :: rest => match g.toNat? with
-    | some g => (sleeps rest).map fun sl => (some g, sl)
+    | some g => (tail rest).map fun (sl, rl) => (some g, sl, rl)
     | none => none
   | _ => none
 
@@ -329,6 +345,37 @@ where
     let vd := if waitMs > 0 && !used then vd.join (.bad "sleep-without-throttling-rule") else vd
     ({ s1 with rules := rs }, vd)
 
+/-- the reuse plan decides which rule of the new generation continues which old rule's per-value history -/
+def applyLoad (s : OSt) (rs : List Rule) : OSt :=
+  let plan := planFrom (s.gen * 1000) (s.rules.map fun o => (o.gid, o.rule)) 0 rs
+  let os := plan.map fun (g, r, o) =>
+    match o with
+    | .fresh => ({ gid := g, rule := r } : ORule)
+    | .same og => (s.rules.find? (fun x => x.gid == og)).getD { gid := g, rule := r }
+    | .stat og => match s.rules.find? (fun x => x.gid == og) with
+      | some x =>
+        let keep := x.lit && x.rule.T == r.T && x.rule.burst == r.burst && x.rule.mq == r.mq
+                      && sameItems x.rule.items r.items
+        { x with gid := g, rule := r, lit := keep }
+      | none => { gid := g, rule := r }
+  { s with rules := os, gen := s.gen + 1 }
+
+/-- one entry result: judged against the rules the request started with; a reload that happened while it slept
+    (`reload:<n>`) is applied afterwards -/
+def judgeResult (s : OSt) (e : Entry) (r : String) : OSt × Verdict :=
+  match parseResult r with
+  | none => (s, .bad "unparsable-result")
+  | some (blocked, sleeps, rl) =>
+    let (s', v) := judgeEntry s e blocked sleeps
+    match rl, s.armed with
+    | none, some _ => (s', if sleeps.isEmpty then v else v.join (.bad "armed-reload-not-performed"))
+    | none, none => (s', v)
+    | some _, none => (s', v.join (.bad "reload-not-armed"))
+    | some n, some rs =>
+      let s'' := applyLoad { s' with armed := none } rs
+      (s'', if sleeps.isEmpty then v.join (.bad "reload-without-sleep")
+            else if s''.rules.length = n then v else v.join (.bad "rules-in-force"))
+
 def stepOracle (s : OSt) (ts : List String) (line : String) : OSt × Option String :=
   match ts with
   | ["clock", t] => match t.toNat? with
@@ -342,25 +389,15 @@ def stepOracle (s : OSt) (ts : List String) (line : String) : OSt × Option Stri
   | "load" :: n :: rules => match n.toNat?, rules.mapM parseRule with
       | some n, some rs =>
         if rs.length ≠ n then (s, some "bad-op") else
-        -- the reuse plan decides which rule of the new generation continues which old rule's per-value history
-        let plan := planFrom (s.gen * 1000) (s.rules.map fun o => (o.gid, o.rule)) 0 rs
-        let os := plan.map fun (g, r, o) =>
-          match o with
-          | .fresh => ({ gid := g, rule := r } : ORule)
-          | .same og => (s.rules.find? (fun x => x.gid == og)).getD { gid := g, rule := r }
-          | .stat og => match s.rules.find? (fun x => x.gid == og) with
-            | some x =>
-              let keep := x.lit && x.rule.T == r.T && x.rule.burst == r.burst && x.rule.mq == r.mq
-                            && sameItems x.rule.items r.items
-              { x with gid := g, rule := r, lit := keep }
-            | none => { gid := g, rule := r }
-        let want := toString os.length
-        ({ s with rules := os, gen := s.gen + 1 }, some (if resPart line = some want then "ok" else "bad rules-in-force"))
+        let s' := applyLoad s rs
+        let want := toString s'.rules.length
+        (s', some (if resPart line = some want then "ok" else "bad rules-in-force"))
       | _, _ => (s, some "bad-op")
-  | "entry" :: _ => match parseEntry ts, (resPart line).bind parseResult with
-      | some e, some (blocked, sleeps) =>
-        let (s', v) := judgeEntry s e blocked sleeps
-        (s', some v.show)
+  | "onsleep" :: n :: rules => match n.toNat?, rules.mapM parseRule with
+      | some n, some rs => if rs.length ≠ n then (s, some "bad-op") else ({ s with armed := some rs }, none)
+      | _, _ => (s, some "bad-op")
+  | "entry" :: _ => match parseEntry ts, resPart line with
+      | some e, some r => let (s', v) := judgeResult s e r; (s', some v.show)
       | some _, none => (s, some "bad unparsable-result")
       | none, _ => (s, some "bad-op")
   | ["sweep", res, b, pre, lo, hi] => match b.toNat?, lo.toNat?, hi.toNat? with
@@ -371,11 +408,8 @@ def stepOracle (s : OSt) (ts : List String) (line : String) : OSt × Option Stri
           if rs.length ≠ hi - lo then (s, some "bad sweep-length") else
           -- every entry of the sweep is judged like a single `entry`; the line gets the worst verdict (first reason)
           let (s', v) := (List.range (hi - lo)).zip rs |>.foldl (fun (acc : OSt × Verdict) (k, r) =>
-            match parseResult r with
-            | none => (acc.1, if acc.2.rank ≥ 3 then acc.2 else .bad "unparsable-result")
-            | some (blocked, sleeps) =>
-              let (s', x) := judgeEntry acc.1 { res := res, b := b, args := [pre ++ toString (lo + k)], atts := [] } blocked sleeps
-              (s', if x.rank > acc.2.rank then x else acc.2)) (s, Verdict.na)
+            let (s', x) := judgeResult acc.1 { res := res, b := b, args := [pre ++ toString (lo + k)], atts := [] } r
+            (s', if x.rank > acc.2.rank then x else acc.2)) (s, Verdict.na)
           (s', some v.show)
       | _, _, _ => (s, some "bad-op")
   | _ => (s, some "bad-op")
